@@ -22,6 +22,8 @@ def build_alphabet(darsia):
     RHS_A = rng0.random((12, 10))
     COEF_M = 0.5 + rng0.random((12, 10))
     COEF_D = 0.5 + rng0.random((12, 10))
+    VOL_A = rng0.random((6, 5, 4))
+    RHS_V = rng0.random((6, 5, 4))
     ENV = {}
 
     def shared(name, ctor):
@@ -33,6 +35,18 @@ def build_alphabet(darsia):
         J = shared("J", lambda: darsia.Jacobi(maxiter=5, mass_coeff=1.0, diffusion_coeff=1.0, dim=2))
         J.update_params(mass_coeff=mass, diffusion_coeff=diff, dim=2)
         return J(IMG_A.copy(), RHS_A.copy(), h=h)
+
+    def jac3d(mass, diff, h):
+        # the same shared Jacobi object, now in 3-D with otherwise identical parameters
+        J = shared("J", lambda: darsia.Jacobi(maxiter=5, mass_coeff=1.0, diffusion_coeff=1.0, dim=2))
+        J.update_params(mass_coeff=mass, diffusion_coeff=diff, dim=3)
+        return J(VOL_A.copy(), RHS_V.copy(), h=h)
+
+    def h1_3d(mu, explicit=False):
+        if explicit:
+            S = shared("H1S", lambda: darsia.Jacobi(maxiter=8))
+            return darsia.H1_regularization(VOL_A.copy(), mu=mu, omega=1.0, dim=3, solver=S)
+        return darsia.H1_regularization(VOL_A.copy(), mu=mu, omega=1.0, dim=3)
 
     def mg(mass, diff):
         G = shared("MG", lambda: darsia.MG(depth=1, smoother_iterations=2, maxiter=2, mass_coeff=1.0, diffusion_coeff=1.0, dim=2))
@@ -116,6 +130,9 @@ def build_alphabet(darsia):
         "jac_h1": lambda: jac(1.0, 1.0, 1.0),
         "jac_h05": lambda: jac(1.0, 1.0, 0.5),
         "jac_params": lambda: jac(2.0, 3.0, 1.0),
+        "jac_3d": lambda: jac3d(1.0, 1.0, 1.0),
+        "h1_3d_mu1": lambda: h1_3d(1.0),
+        "h1_3d_explicit_mu1": lambda: h1_3d(1.0, explicit=True),
         "mg_a": lambda: mg(1.0, 1.0),
         "mg_b": lambda: mg(2.0, 0.3),
         "mg_het": mg_het,
@@ -157,18 +174,18 @@ def build_alphabet(darsia):
 
 
 LETTERS = [
-    "jac_h1", "jac_h05", "jac_params", "mg_a", "mg_b", "mg_het", "h1_mu1", "h1_mu10", "h1_mu10_omega3", "h1_shapeB", "h1_rgb",
+    "jac_h1", "jac_h05", "jac_params", "jac_3d", "h1_3d_mu1", "h1_3d_explicit_mu1", "mg_a", "mg_b", "mg_het", "h1_mu1", "h1_mu10", "h1_mu10_omega3", "h1_shapeB", "h1_rgb",
     "h1_explicit_mu10", "h1_explicit_mu1", "h1_mg_mu1", "h1_mg_mu5", "sb_mu05", "sb_mu2_ell1", "sb_shapeB", "sb_explicit", "tvd_chambolle",
     "tvd_het", "aa_seq1", "aa_seq2", "w_newton_A", "w_newton_B", "w_newton_amg_aa_A", "w_newton_amg_aa_B", "w_bregman_A", "w_bregman_B",
     "w_bregman_amg_A", "w_bregman_amg_B", "w_adaptive_A", "w_adaptive_B", "w_bregman_aa_A", "w_bregman_aa_B", "h1_mgarr_A", "h1_mgarr_B", "mg_upd_A", "mg_upd_B",
 ]
 # letters that can share state with each other (same object or same module-level default)
 GROUPS = {
-    "jacobi": ["jac_h1", "jac_h05", "jac_params"],
+    "jacobi": ["jac_h1", "jac_h05", "jac_params", "jac_3d"],
     "mg": ["mg_a", "mg_b"],
     "mg_het": ["mg_het"],
-    "default_solver": ["h1_mu1", "h1_mu10", "h1_mu10_omega3", "h1_shapeB", "h1_rgb", "sb_mu05", "sb_mu2_ell1", "sb_shapeB", "tvd_het"],
-    "h1_explicit": ["h1_explicit_mu10", "h1_explicit_mu1"],
+    "default_solver": ["h1_mu1", "h1_mu10", "h1_mu10_omega3", "h1_shapeB", "h1_rgb", "sb_mu05", "sb_mu2_ell1", "sb_shapeB", "tvd_het", "h1_3d_mu1"],
+    "h1_explicit": ["h1_explicit_mu10", "h1_explicit_mu1", "h1_3d_explicit_mu1"],
     "h1_mg": ["h1_mg_mu1", "h1_mg_mu5"],
     "sb_explicit": ["sb_explicit"],
     "tvd": ["tvd_chambolle"],
